@@ -151,14 +151,18 @@ func (d msgDesc) payload() []byte {
 	}
 }
 
+// bubbleEpoch is where testing/synctest starts its fake clock (2000-01-01T00:00:00Z); block
+// timestamps of ordinary messages lie an hour before that, i.e. in the node's recent past.
+const bubbleEpoch = 946684800
+
 func (d msgDesc) timestamp() time.Time {
 	switch d.tc {
 	case 0:
-		return time.Unix(1_700_000_000+int64(d.id), 0)
+		return time.Unix(bubbleEpoch-3600+int64(d.id), 0)
 	case 1:
 		return time.Unix(0, 0)
 	case 2:
-		return time.Unix(1_700_000_000+int64(d.id), 500_000_000)
+		return time.Unix(bubbleEpoch-3600+int64(d.id), 500_000_000)
 	default:
 		return time.Time{}
 	}
@@ -290,25 +294,26 @@ func parseSet(index int64, x string) *setDef {
 }
 
 type digestModel struct {
-	hash        string
-	desc        msgDesc
-	observed    bool
-	injected    bool
-	snapshot    *setDef // set in force at the latest own observation in this lifetime (may be nil for injections)
-	body        []byte
-	delivered   map[string]bool // addr(hex) -> a valid signature over this digest was delivered (any time in this lifetime)
-	accepted    map[string]bool // addr(hex) -> delivered while signer was a member of the set applicable at delivery
-	published   int
-	firstSeen   time.Time
-	firstObsMsg []byte // latest own SignedObservation gossip bytes emitted for this digest
-	obsKind     string
-	lastRetry   time.Time
-	retries     int
-	everDue     bool
-	dueMissed   int
-	cat         string
-	publishedAt time.Time
-	hadStoreAt  bool
+	hash         string
+	desc         msgDesc
+	observed     bool
+	injected     bool
+	snapshot     *setDef // set in force at the latest own observation in this lifetime (may be nil for injections)
+	body         []byte
+	delivered    map[string]bool // addr(hex) -> a valid signature over this digest was delivered (any time in this lifetime)
+	accepted     map[string]bool // addr(hex) -> delivered while signer was a member of the set applicable at delivery
+	published    int
+	firstSeen    time.Time
+	firstObsMsg  []byte // latest own SignedObservation gossip bytes emitted for this digest
+	obsKind      string
+	lastRetry    time.Time
+	retries      int
+	everDue      bool
+	dueMissed    int
+	overdueSince time.Time
+	cat          string
+	publishedAt  time.Time
+	hadStoreAt   bool
 }
 
 type world struct {
@@ -360,6 +365,7 @@ type world struct {
 	everPublished map[string]int
 	dbDown        bool
 	stalled       bool
+	newParked     int
 	hctx          context.Context
 	hcancel       context.CancelFunc
 	pastSummaries string
@@ -404,7 +410,7 @@ func (w *world) newProcessor() {
 	w.lockC = make(chan *common.MessagePublication)
 	w.setC = make(chan *common.GuardianSet)
 	w.sendC = make(chan []byte)
-	w.obsvC = make(chan *gossipv1.SignedObservation, 4096)
+	w.obsvC = make(chan *gossipv1.SignedObservation, 50) // as wired in guardiand
 	w.reqC = make(chan *gossipv1.ObservationRequest, w.reqCap)
 	w.injectC = make(chan *vaa.VAA)
 	w.signedInC = make(chan *gossipv1.SignedVAAWithQuorum, 50)
@@ -591,15 +597,23 @@ func (w *world) collect() *outputs {
 		}
 		break
 	}
+	w.newParked = 0
 	if !w.loop {
-		for {
-			select {
-			case ob := <-w.obsvC:
-				w.parked = append(w.parked, ob)
-				continue
-			default:
+		for round := 0; round < 2; round++ {
+			for {
+				select {
+				case ob := <-w.obsvC:
+					if ob.MessageId == fillerID {
+						continue // queue filler (see "fillq"), not a real observation
+					}
+					w.parked = append(w.parked, ob)
+					w.newParked++
+					continue
+				default:
+				}
+				break
 			}
-			break
+			synctest.Wait() // a loopback that was waiting for room in the queue gets in now
 		}
 	}
 	return o
@@ -642,6 +656,8 @@ func shortHex(b []byte) string {
 	return hex.EncodeToString(b)
 }
 
+const fillerID = "verif-queue-filler"
+
 // ---------------------------------------------------------------------------------------------
 // step execution
 
@@ -678,6 +694,7 @@ func (w *world) guard(f func()) {
 		w.dead = true
 		w.stalled = true
 		w.violate("C17", "processor-stalled-in-handler", "the processor did not return from step %s: it is blocked (outbound request queue capacity %d)", w.curStep, w.reqCap)
+		w.violate("C13", "processor-stalled-in-handler", "the processor did not return from step %s and processes no further input (inbound queue %d/%d, outbound request queue capacity %d)", w.curStep, len(w.obsvC), cap(w.obsvC), w.reqCap)
 	}
 }
 
@@ -772,6 +789,14 @@ func (w *world) runStep(i int, st simkit.Step) {
 	case "tick":
 		w.doTicks(st)
 		return
+	case "fillq":
+		// the inbound observation queue is full (a gossip burst the processor has not got to yet)
+		if !w.loop {
+			for len(w.obsvC) < cap(w.obsvC) {
+				w.obsvC <- &gossipv1.SignedObservation{MessageId: fillerID}
+			}
+			w.stats.Fault("inbound-observation-queue-full")
+		}
 	case "dbdown":
 		// storage fault: the badger handle behind the node's store is closed, every store call fails
 		// until "dbup" (the *db.Database the processor holds stays the same object)
@@ -1094,8 +1119,16 @@ func (w *world) afterStep(st simkit.Step, before, obsHash string, obsAcceptable 
 		storedSkip := false
 		if st.Op == "msg" {
 			if len(o.obs) == 0 {
-				// the only legitimate reason: a quorum VAA is already stored (late observation)
-				if w.store[d.idKey()] != nil {
+				// the only legitimate reason: a quorum VAA with this identifier is already stored AND this
+				// observation's block time lies more than the settlement time (30 s) after that VAA's
+				// (i.e. it is not the same message seen again, for which the node must still sign)
+				legit := false
+				if sb := w.store[d.idKey()]; sb != nil {
+					if sv, err := ref.Decode(sb); err == nil {
+						legit = d.timestamp().Sub(time.Unix(int64(sv.Body.TimestampSec), 0)) > 30*time.Second
+					}
+				}
+				if legit {
 					storedSkip = true
 					w.stats.Probe("late-observation-skipped")
 				} else {
@@ -1135,6 +1168,9 @@ func (w *world) afterStep(st simkit.Step, before, obsHash string, obsAcceptable 
 		}
 		if len(o.obs) > 1 {
 			w.violate("C02", "own-observation-duplicated", "%d signed observations for one chain observation", len(o.obs))
+		}
+		if !w.loop && len(o.obs) > 0 && w.newParked == 0 {
+			w.violate("C02", "own-signature-loopback-lost", "the node signed %s but its own observation never came back for aggregation (inbound queue full at that moment: %v)", d.idKey(), w.stats.Faults["inbound-observation-queue-full"] > 0)
 		}
 		if w.loop && len(o.obs) > 0 {
 			// with the real Run loop the own-signature loopback is consumed within the same step
@@ -1369,8 +1405,8 @@ func (w *world) doTicks(st simkit.Step) {
 	if dt <= 0 {
 		dt = time.Nanosecond
 	}
-	if w.loop {
-		dt = 30 * time.Second
+	if w.loop && dt > 30*time.Second {
+		dt = 30 * time.Second // at most one pass of the real 30 s ticker per sub-step
 	}
 	if dt > w.maxDt {
 		w.maxDt = dt
@@ -1475,7 +1511,11 @@ func (w *world) checkCleanup(st simkit.Step, o *outputs) {
 			if age < 5*minute-time.Second {
 				w.violate("C14", "retry-too-early", "digest %s retried at age %v", h[:16], age)
 			}
-			if !m.lastRetry.IsZero() && now.Sub(m.lastRetry) < 5*minute-time.Second {
+			slack := time.Second
+			if w.loop {
+				slack = 31 * time.Second // retries are seen at the end of a sub-step, up to one ticker period late
+			}
+			if !m.lastRetry.IsZero() && now.Sub(m.lastRetry) < 5*minute-slack {
 				w.violate("C14", "retry-interval-too-short", "digest %s retried %v after the previous retry", h[:16], now.Sub(m.lastRetry))
 			}
 			// exactly one re-observation request for the originating transaction on the emitter chain
@@ -1542,7 +1582,18 @@ func (w *world) checkCleanup(st simkit.Step, o *outputs) {
 		case "unobserved":
 			overdue = age >= 5*minute+time.Second
 		}
-		if overdue {
+		if overdue && m.overdueSince.IsZero() {
+			m.overdueSince = now
+		} else if !overdue {
+			m.overdueSince = time.Time{}
+		}
+		if overdue && w.loop {
+			// with the real ticker the number of passes per step is not observable: two full ticker
+			// periods (plus a second) without the due action is the bound
+			if now.Sub(m.overdueSince) >= 61*time.Second {
+				w.violate("C14", cat+"-entry-overdue", "%s digest %s: retry/expiry overdue for %v while the cleanup ticker should have fired twice (age %v)", cat, h[:16], now.Sub(m.overdueSince), age)
+			}
+		} else if overdue {
 			m.dueMissed++
 			if m.dueMissed >= 2 {
 				w.violate("C14", cat+"-entry-overdue", "%s digest %s: retry/expiry overdue for two consecutive cleanup passes (age %v, last retry %v ago)", cat, h[:16], age, now.Sub(m.lastRetry))
